@@ -495,6 +495,24 @@ func checkCmd(args []string) int {
 				}
 			}
 		}
+		if suffix != "" {
+			// The contract no longer fits the code of this function (a renamed local in a loop invariant, a loop added or
+			// removed, ...): the proof is undecided, which is not evidence of a violation.  It is a violation only when the
+			// property's own harness finds a failing input on the real code (above); the bounded obligations of the
+			// property, which do not depend on the contract text, keep deciding the behaviour.
+			stale := ""
+			for _, u := range unsupported {
+				if strings.HasPrefix(u, fnKey+".") {
+					stale = u
+				}
+			}
+			if stale != "" {
+				msg := name + " (contract no longer applies: " + stale + ")"
+				fmt.Printf("UNDECIDED property=%s obligation=%s reason=%q\n", prop, name, stale)
+				undecided = append(undecided, msg)
+				continue
+			}
+		}
 		fmt.Printf("VIOLATION property=%s replay=%s obligation=%s status=not-generated%s\n", prop, rp, name, suffix)
 		violations = append(violations, name)
 		exit = 1
